@@ -360,6 +360,49 @@ def run(tier):
                     if stated_n != listed_n:
                         v.violation("c20:arduino-header-section-count", "a generated header states a number of entries different from the entries it lists",
                                     {"program": other, "scope": scope, "file": fn, "section": label, "stated": stated_n, "listed": listed_n})
+    # the optional zone_strings.{h,cpp} pair (--generate_zone_strings): the zone-name array is a second "emitted zone list"
+    # and must equal the set of emitted zones; the format array holds exactly the FORMAT and LETTER strings of the emitted
+    # tables; "numStrings" and "memory" stated beside each array equal its entries; indices run 0..n-1
+    for other in ("tz2025b", "features"):
+        for scope, ns in (("extended", "gendbx"), ("basic", "gendb")):
+            try:
+                oc = comps[scope] if other == "tz2025b" else tzpipe.compile_source(indirs[other], scope, 2000, 2050)
+                og = work / ("genstr-%s-%s" % (other, scope))
+                tzpipe.generate_arduino(oc, og, ns, generate_zone_strings=True)
+            except tzpipe.CompilerDied as e:
+                v.violation("c20:zone-strings-generator-raises", "generation with --generate_zone_strings failed", {"program": other, "scope": scope, "error": repr(e.exc)[:300]})
+                continue
+            zs_path = og / "zone_strings.cpp"
+            if not zs_path.exists() or not (og / "zone_strings.h").exists():
+                v.violation("c20:zone-strings-missing", "--generate_zone_strings produced no zone_strings files", {"program": other, "scope": scope})
+                continue
+            txt = zs_path.read_text()
+            want_sets = {"kZoneStrings": set(oc.tzdb["zones_map"]),
+                         "kFormats": {e["format"].replace("%s", "%") for eras in oc.tzdb["zones_map"].values() for e in eras}
+                                     | {r["letter"] for rules in oc.tzdb["rules_map"].values() for r in rules}}
+            for arr, want_set in want_sets.items():
+                m = re.search(r"// numStrings: (\d+)\n// memory: (\d+)\n// memory original: \d+\nconst char\* const %s\[\] = \{\n(.*?)\n\};" % arr, txt, re.S)
+                counters["zone_string_arrays_checked"] = counters.get("zone_string_arrays_checked", 0) + 1
+                if not m:
+                    v.violation("c20:zone-strings-layout", "zone_strings.cpp does not hold the expected array", {"program": other, "scope": scope, "array": arr})
+                    continue
+                entries = re.findall(r'^\s*/\*\s*(\d+)\*/ "([^"]*)",\s*$', m.group(3), re.M)
+                idx_ok = [int(i) for i, _ in entries] == list(range(len(entries)))
+                names_ = [n for _, n in entries]
+                if int(m.group(1)) != len(entries) or not idx_ok or int(m.group(2)) != sum(len(n) + 1 for n in names_) or len(set(names_)) != len(names_):
+                    v.violation("c20:zone-strings-count", "zone_strings.cpp states a number of strings / bytes (or indices) different from the entries listed",
+                                {"program": other, "scope": scope, "array": arr, "stated": int(m.group(1)), "listed": len(entries), "indices_consecutive": idx_ok,
+                                 "stated_memory": int(m.group(2)), "listed_memory": sum(len(n) + 1 for n in names_)})
+                if set(names_) != want_set:
+                    v.violation("c20:zone-strings-differ-from-emitted", "the strings listed in zone_strings.cpp are not exactly those of the emitted zones / tables",
+                                {"program": other, "scope": scope, "array": arr, "missing": sorted(want_set - set(names_))[:6], "extra": sorted(set(names_) - want_set)[:6]})
+            # the pair is an addition: the other files must be what they are without the flag
+            base_dir = gens[scope] if other == "tz2025b" else work / ("genhdr-%s-%s" % (other, scope))
+            for fn in ("zone_infos.cpp", "zone_policies.cpp", "zone_registry.cpp", "zone_infos.h"):
+                if (base_dir / fn).exists() and (og / fn).read_text() != (base_dir / fn).read_text():
+                    v.violation("c20:zone-strings-flag-changes-tables", "--generate_zone_strings changes a file other than the zone_strings pair", {"program": other, "scope": scope, "file": fn})
+    if counters.get("zone_string_arrays_checked", 0) < 8:
+        v.inconclusive_because("the zone_strings artifacts were not examined")
     # the validation_* artifact family (ArduinoValidationGenerator): numItems stated per zone == entries of its item array,
     # "numZones" == declarations == definitions == test cases. The item lists are shaped like the three producers' output:
     # unique epochs (pytz / java), coinciding epochs ('B' and 'S' samples of compare_cpp at the same instant), an empty list.
